@@ -422,8 +422,8 @@ struct NameGen
     }
 };
 
-const std::vector<std::string> kExponents = {"1", "2", "3", "-1", "-2", "-3", "0.5", "-0.5", "1.5", "2.0", "1e0", "-1.0"};
-const std::vector<std::string> kMultipliers = {"1", "2", "10", "0.001", "1000", "3.5", "1e3", "60", "0.5", "1.0e-6"};
+const std::vector<std::string> kExponents = {"1", "2", "3", "-1", "-2", "-3", "0.5", "-0.5", "1.5", "2.0", "1e0", "-1.0", "0.333333333333", "-1.23456789"};
+const std::vector<std::string> kMultipliers = {"1", "2", "10", "0.001", "1000", "3.5", "1e3", "60", "0.5", "1.0e-6", "0.45359237", "1609.344", "1.66053906717e-24", "3.14159265358979"};
 const std::vector<std::string> kReals = {"0", "1", "-1", "0.5", "2.5", "-3.25", "100", "1e3", "1.5e-3", "-2E2", "3.", ".5", "-.5", "007", "12345.678", "1e+2", "6.02e23", "1.0"};
 
 std::string maybeId(Rng &rng, NameGen &ng, const GenOptions &opt)
@@ -544,6 +544,75 @@ IrModel generateModel(Rng &rng, const GenOptions &opt)
     std::vector<Family> families;
     int nUnits = rng.range(0, opt.maxUnits);
     std::vector<std::string> definedUnits; // user units defined so far (non-imported)
+    // "Expanded twin": the same dimension written differently.  An existing units U with a child that references a
+    // user-defined units V (itself defined through children) is re-expressed with V's children in place of that
+    // child, exponents multiplied: U = V^2 x s^-1, V = W x m  ->  U' = W^2 x m^2 x s^-1.  U' joins U's family, so
+    // connected variables may use U on one side and U' on the other (dimensionally equal, nesting depth differs).
+    // Only exponents that are multiples of 0.5 are multiplied (the products are exact).
+    auto halfInteger = [](const IrUnit &k, double &e) {
+        e = k.hasExp ? strtod(k.exp.c_str(), nullptr) : 1.0;
+        return std::fabs(e * 2.0 - std::round(e * 2.0)) < 1e-12 && std::fabs(e) < 64.0;
+    };
+    auto expandedTwin = [&](IrUnits &u) {
+        std::vector<std::pair<size_t, size_t>> spots; // (index of U in m.units, index of the child to expand)
+        for (size_t ui = 0; ui < m.units.size(); ++ui) {
+            const auto &U = m.units[ui];
+            if (U.import >= 0) {
+                continue;
+            }
+            for (size_t ci = 0; ci < U.units.size(); ++ci) {
+                int vi = m.findUnits(U.units[ci].ref);
+                double e = 0.0;
+                if (vi < 0 || m.units[static_cast<size_t>(vi)].import >= 0 || m.units[static_cast<size_t>(vi)].units.empty() || !halfInteger(U.units[ci], e)) {
+                    continue;
+                }
+                bool ok = true;
+                for (const auto &vk : m.units[static_cast<size_t>(vi)].units) {
+                    double e2 = 0.0;
+                    ok = ok && halfInteger(vk, e2);
+                }
+                if (ok) {
+                    spots.emplace_back(ui, ci);
+                }
+            }
+        }
+        if (spots.empty()) {
+            return false;
+        }
+        auto spot = rng.pick(spots);
+        const IrUnits U = m.units[spot.first];
+        const IrUnits V = m.units[static_cast<size_t>(m.findUnits(U.units[spot.second].ref))];
+        double e1 = 0.0;
+        halfInteger(U.units[spot.second], e1);
+        for (size_t ci = 0; ci < U.units.size(); ++ci) {
+            if (ci != spot.second) {
+                IrUnit k = U.units[ci];
+                k.id = maybeId(rng, ng, opt);
+                u.units.push_back(k);
+                continue;
+            }
+            for (const auto &vk : V.units) {
+                double e2 = 0.0;
+                halfInteger(vk, e2);
+                IrUnit k;
+                k.ref = vk.ref;
+                char buf[64];
+                snprintf(buf, sizeof buf, "%.17g", e1 * e2);
+                k.hasExp = true;
+                k.exp = buf;
+                k.id = maybeId(rng, ng, opt);
+                u.units.push_back(k);
+            }
+        }
+        for (auto &fam : families) {
+            if (std::find(fam.members.begin(), fam.members.end(), U.name) != fam.members.end()) {
+                fam.members.push_back(u.name);
+                return true;
+            }
+        }
+        families.push_back({{U.name, u.name}});
+        return true;
+    };
     for (int i = 0; i < nUnits; ++i) {
         IrUnits u;
         u.name = ng.ident("u");
@@ -556,6 +625,8 @@ IrModel generateModel(Rng &rng, const GenOptions &opt)
             u.import = static_cast<int>(rng.below(m.imports.size()));
             u.importRef = ng.ident("ref_u");
             families.push_back({{u.name}});
+        } else if (kind == 5 && expandedTwin(u)) {
+            // (twin built; it joined the family of the units it re-expresses)
         } else if (kind <= 4 && !families.empty()) {
             // scaled variant of an existing unit (same family)
             auto &fam = families[rng.below(families.size())];
